@@ -417,7 +417,12 @@ func (w *kqueue) addWatch(name string, flags uint32, listDir bool) (string, erro
 
 	err := w.register([]int{info.wd}, unix.EV_ADD|unix.EV_CLEAR|unix.EV_ENABLE, flags)
 	if err != nil {
-		unix.Close(info.wd)
+		// Only close the descriptor if we just opened it: the descriptor of an
+		// existing watch is still in the tables, and is closed when that watch
+		// is removed.
+		if !alreadyWatching {
+			unix.Close(info.wd)
+		}
 		return "", err
 	}
 
